@@ -75,10 +75,16 @@ def meta_of(items):
 FAILED_BASE = 4500     # ordinals of recordings whose every save failed (never stored: no index in the history of saves)
 
 
-def populated(hist, kp, decoys=None, failed=None, tz=None):
+def populated(hist, kp, decoys=None, failed=None, tz=None, reader=None, case=None):
+    """reader (optional, round 7): {"probes": [i, ...], "own": bool} - the lookup of the case is ALSO made before hist[i]
+    is saved (i = len(hist): after the last save; answers discarded) and the final lookup is made through the same objects
+    that made those earlier lookups: a second cassette object on the same directory / bucket (own = false; the in-memory
+    cassette has no second view: its one object) or the saving objects themselves (own = true).  What a lookup answers
+    depends on what is saved now, not on what an earlier lookup of the same object saw."""
     decoys = DECOYS.get(kp, []) if decoys is None else decoys
     failed = failed or []
-    key = json.dumps([hist, kp, decoys, failed, tz], sort_keys=True)
+    key = json.dumps([hist, kp, decoys, failed, tz] + ([reader, {k: v for k, v in case.items() if k != "hist"}] if reader else []),
+                     sort_keys=True)
     if key in _cache:
         return _cache[key]
     if len(_cache) > 6:
@@ -94,6 +100,21 @@ def populated(hist, kp, decoys=None, failed=None, tz=None):
     cas = {"mem": InMemoryTapeCassette(), "file": FileBasedTapeCassette(d),
            "s3": s3c.S3TapeCassette(bucket, key_prefix=kp, read_only=False)}
     ids = {"mem": {}, "file": {}, "s3": {}}       # id text -> ordinal
+    lookup_cas = cas
+    if reader and not reader.get("own"):
+        lookup_cas = {"mem": cas["mem"], "file": FileBasedTapeCassette(d),
+                      "s3": s3c.S3TapeCassette(bucket, key_prefix=kp, read_only=False)}
+    probes = list((reader or {}).get("probes") or [])
+    probe_log = []
+
+    def probe(i):
+        if i not in probes:
+            return
+        nowp = hist[i - 1]["t"] if i else 0
+        view = {"cas": lookup_cas, "ids": ids, "s3c": s3c}
+        pc = dict(case, now=nowp if i < len(hist) else case["now"])
+        probe_log.append({n: (lambda o: o["ids"] if o["exc"] is None else o.get("excname"))(listing(view, n, pc))
+                          for n in ("mem", "file", "s3")})
     by_uuid = {}                                   # uuid -> (ordinal, {cassette: id})
     files = {}                                     # file name -> ordinal
     first_clean = {}
@@ -139,6 +160,7 @@ def populated(hist, kp, decoys=None, failed=None, tz=None):
             store.refuse_nth = None
 
     for i, e in enumerate(hist):
+        probe(i)
         for j, f in enumerate(failed):
             if f["after"] == i:
                 failing_save(j, f)
@@ -180,7 +202,9 @@ def populated(hist, kp, decoys=None, failed=None, tz=None):
             r.set_data('k', -1)
             r.add_metadata(meta_of(e["meta"]))
             dc.save_recording(r)
-    st = {"cas": cas, "ids": ids, "files": files, "dir": d, "s3c": s3c, "failed_res": failed_res}
+    probe(len(hist))
+    st = {"cas": lookup_cas, "ids": ids, "files": files, "dir": d, "s3c": s3c, "failed_res": failed_res,
+          "probe_log": probe_log}
     _cache[key] = st
     return st
 
@@ -289,9 +313,11 @@ def run_lookup(case):
 
 
 def run_lookup_here(case):
-    st = populated(case["hist"], case["kp"], case.get("decoys"), case.get("failed"), case.get("tz"))
+    st = populated(case["hist"], case["kp"], case.get("decoys"), case.get("failed"), case.get("tz"), case.get("reader"), case)
     names = os.listdir(st["dir"])
     obs = {"listdir": [st["files"].get(n, -1) for n in names]}
+    if case.get("reader"):
+        obs["earlier_lookups"] = st["probe_log"]
     if case.get("failed"):
         obs["failed_saves"] = st["failed_res"]
     for name in ("mem", "file", "s3"):
